@@ -21,6 +21,7 @@ TARGET = os.path.join(ROOT, "target")
 EVID = os.path.join(ROOT, "evidence")
 REPLAY = os.path.join(ROOT, "replay")
 KNOWN = os.path.join(ROOT, "known_findings.txt")
+REPO = os.environ.get("VERIF_REPO", "/repo")  # only tools/try_seeded.py overrides this (scratch copy)
 
 ENV = dict(os.environ)
 ENV["CARGO_NET_OFFLINE"] = "true"
@@ -106,7 +107,7 @@ def run_kani(crate, harnesses, tier, opts, extra_env=None, tdir_suffix="", playb
     outdir = os.path.join(tdir, "result_output_dir")
     shutil.rmtree(outdir, ignore_errors=True)
     os.makedirs(tdir, exist_ok=True)
-    lock_src = "/repo/Cargo.lock"
+    lock_src = os.path.join(REPO, "Cargo.lock")
     if os.path.exists(lock_src) and not os.path.exists(os.path.join(crate_dir, "Cargo.lock")):
         shutil.copy(lock_src, os.path.join(crate_dir, "Cargo.lock"))
     timeout_min = opts.get("harness_timeout_min", {}).get(tier, 10 if tier == "quick" else 60)
@@ -119,6 +120,9 @@ def run_kani(crate, harnesses, tier, opts, extra_env=None, tdir_suffix="", playb
         cmd += ["-Z", "concrete-playback", "--concrete-playback=print"]
     else:
         cmd += ["-j", str(jobs or JOBS), "--output-format", "terse", "--output-into-files"]
+    # explicit kani::cover! witnesses at the end of every harness replace Kani's per-assertion
+    # reachability checks (which triple CBMC's solver calls)
+    cmd += ["--no-assertion-reach-checks"]
     qual = all_harnesses(crate_dir)
     for h in harnesses:
         cmd += ["--harness", qual.get(h, h)]
@@ -191,8 +195,8 @@ def native_replay(path):
     crate, harness = hdr["crate"], hdr["harness"]
     ndir = os.path.join(ROOT, "harness", crate, "native")
     tdir = os.path.join(TARGET, crate + "_native")
-    if os.path.exists("/repo/Cargo.lock") and not os.path.exists(os.path.join(ndir, "Cargo.lock")):
-        shutil.copy("/repo/Cargo.lock", os.path.join(ndir, "Cargo.lock"))
+    if os.path.exists(os.path.join(REPO, "Cargo.lock")) and not os.path.exists(os.path.join(ndir, "Cargo.lock")):
+        shutil.copy(os.path.join(REPO, "Cargo.lock"), os.path.join(ndir, "Cargo.lock"))
     out = {}
     for profile, flag in (("dev", []), ("release", ["--release"])):
         rc, o, _ = sh(["cargo", "build", "--offline", "--target-dir", tdir, "--bin", "replay"] + flag, cwd=ndir)
@@ -260,6 +264,17 @@ def main():
 
     all_results = {}
     problems = []     # things that make the check itself inconclusive (exit 2)
+    # gate: the dependency models must agree with the real crates (native differential run)
+    mc_dir = os.path.join(ROOT, "modelcheck")
+    mc = {"ran": False}
+    rc_, o_, w_ = sh(["cargo", "build", "--offline", "--release", "--target-dir", os.path.join(TARGET, "modelcheck")], cwd=mc_dir)
+    if rc_ == 0:
+        rounds = 2000 if tier == "quick" else 20000
+        rc_, o_, w_ = sh([os.path.join(TARGET, "modelcheck", "release", "modelcheck"), str(seed + 1), str(rounds)], cwd=mc_dir, timeout=900)
+        mc = {"ran": True, "exit": rc_, "summary": (o_.strip().splitlines() or [""])[-1], "wall_s": round(w_, 1)}
+    if not mc.get("ran") or mc.get("exit") != 0:
+        print("PROBLEM: dependency model disagrees with the real crate (or modelcheck failed to build):", (o_ or "")[-600:])
+        sys.exit(2)
     violations = []   # (harness, check, replay info)
     known_hits = []
     attributed_elsewhere = []
@@ -295,8 +310,15 @@ def main():
                 for fc in r["failed_checks"]:
                     t = tag_of(fc["desc"])
                     (mine if t == prop else other if t else untagged).append(fc)
-                if untagged:
-                    problems.append("%s: untagged failure(s): %s" % (h, "; ".join(f["desc"] for f in untagged)))
+                for fc in untagged:
+                    # a failed check that carries no property tag (pointer / bounds / overflow check,
+                    # panic inside the code under test, unwinding assertion, model capacity): it is a
+                    # violation of this property only if the counterexample reproduces natively against
+                    # the real dependencies; otherwise the check is inconclusive (exit 2)
+                    if "unwinding assertion" in fc["desc"] or "model capacity" in fc["desc"]:
+                        problems.append("%s: %s" % (h, fc["desc"]))
+                    else:
+                        violations.append({"harness": h, "check": "untagged: " + fc["desc"], "crate": crate, "untagged": True})
                 if other:
                     attributed_elsewhere.append({"harness": h, "checks": [f["desc"] for f in other]})
                 for fc in mine:
@@ -321,8 +343,8 @@ def main():
             crate = grp["crate"]
             ndir = os.path.join(ROOT, "harness", crate, "native")
             tdir = os.path.join(TARGET, crate + "_native")
-            if os.path.exists("/repo/Cargo.lock") and not os.path.exists(os.path.join(ndir, "Cargo.lock")):
-                shutil.copy("/repo/Cargo.lock", os.path.join(ndir, "Cargo.lock"))
+            if os.path.exists(os.path.join(REPO, "Cargo.lock")) and not os.path.exists(os.path.join(ndir, "Cargo.lock")):
+                shutil.copy(os.path.join(REPO, "Cargo.lock"), os.path.join(ndir, "Cargo.lock"))
             rc, o, _ = sh(["cargo", "build", "--offline", "--release", "--target-dir", tdir, "--bin", "replay"], cwd=ndir)
             if rc != 0:
                 problems.append("native validation build failed: " + o[-800:])
@@ -405,6 +427,7 @@ def main():
             "outside_bounds": spec.get("outside", []),
             "models_and_stubs": spec.get("models", []),
             "groups": groups_ev,
+            "model_validation": mc,
             "assumption_validation_native": native_val,
             "known_findings_matched": known_hits,
             "failures_attributed_to_other_properties": attributed_elsewhere,
